@@ -260,6 +260,15 @@ class Subject(object):
                     getattr(self.outs[x - 1], meth)(val)
         except Exception as e:  # noqa
             return type(e).__name__
+        if what != "quiet":
+            # a level that is not one of the four is refused; a refused call leaves the configuration as it was
+            self.nset = getattr(self, "nset", 0) + 1
+            bad = (3, 5, 7, -1, 6, 8)[self.nset % 6]
+            for x in g:
+                try:
+                    self.outs[x - 1].set_verbosity(bad)
+                except Exception:  # noqa
+                    pass
         return "ok"
 
     def can_rewire(self):
